@@ -60,6 +60,9 @@ var c19Routes = map[string]c19Route{
 	"search_nodes":  {"POST", func(string) string { return "/graph/actions/search-nodes" }, func(n string) map[string]any { return map[string]any{"index_name": n, "property_filter": "k='v'", "limit": 5.0} }},
 	"ui_explore":    {"POST", func(string) string { return "/ui/explore" }, func(n string) map[string]any { return map[string]any{"index_name": n, "limit": 5.0} }},
 	"autolinks":     {"PUT", func(n string) string { return "/vector/indexes/" + url.PathEscape(n) + "/auto-links" }, func(string) map[string]any { return map[string]any{"rules": []any{map[string]any{"metadata_field": "p", "relation_type": "r", "create_node": true}}} }},
+	"index_config": {"POST", func(n string) string { return "/vector/indexes/" + url.PathEscape(n) + "/config" }, func(string) map[string]any {
+		return map[string]any{"vacuum_interval": "5m", "refine_interval": "10m", "graph_retention": "1h", "delete_threshold": 0.2, "refine_enabled": true}
+	}},
 	"maintenance":   {"POST", func(n string) string { return "/vector/indexes/" + url.PathEscape(n) + "/maintenance" }, func(string) map[string]any { return map[string]any{"type": "vacuum"} }},
 	"kv_set":        {"POST", func(n string) string { return "/kv/" + url.PathEscape(n) }, func(string) map[string]any { return map[string]any{"value": "val"} }},
 	"kv_get":        {"GET", func(n string) string { return "/kv/" + url.PathEscape(n) }, nil},
@@ -71,6 +74,8 @@ var c19Routes = map[string]c19Route{
 	"list_indexes":  {"GET", func(string) string { return "/vector/indexes" }, nil},
 	"sys_stats":     {"GET", func(string) string { return "/system/stats" }, nil},
 }
+
+var c19DurationFields = map[string]bool{"vacuum_interval": true, "refine_interval": true, "graph_retention": true}
 
 var c19Names = []string{"main", "main", "main", "other", "nosuch", "", "../../sentinel", "../sentinel", "..", ".", "/tmp/kdsim-abs-escape", "a/b", "a\\b", "tenant/../../sentinel", "a/../../../sentinel", "x/./../..", "main/..", "main/../../sentinel/inner", "..%2f..%2fsentinel", "%2e%2e/%2e%2e/sentinel", strings.Repeat("L", 300), "with space", "nul\x00byte", "uni‮gnp"}
 
@@ -112,7 +117,22 @@ func (st C19Step) buildBody(rt c19Route) (raw []byte, must4xx bool, why string) 
 	switch st.Mut {
 	case "nonjson":
 		return []byte(st.Raw), true, "body is not JSON"
+	case "unknownid":
+		// one id of the request names something that does not exist while the others do
+		for _, f := range []string{"target_id", "source_id", "node_id", "root_id", "old_id", "id"} {
+			if _, ok := obj[f]; ok && (f == st.Field || st.Alt%2 == 0) {
+				obj[f] = "ghost_" + fmt.Sprint(st.Alt%5)
+				break
+			}
+		}
 	case "wrongtype":
+		if v, ok := obj[st.Field]; ok && c19DurationFields[st.Field] {
+			// durations are documented as a string ("5m") or a number of nanoseconds: anything else is the wrong type
+			obj[st.Field] = []any{true, []any{1.0}, map[string]any{"a": 1.0}}[st.Alt%3]
+			_ = v
+			b, _ := json.Marshal(obj)
+			return b, true, "duration field " + st.Field + " has the wrong JSON type"
+		}
 		if v, ok := obj[st.Field]; ok {
 			obj[st.Field] = wrongTypeValue(v, st.Alt)
 			b, _ := json.Marshal(obj)
@@ -204,7 +224,7 @@ func genC19Step(r *rand.Rand, routes []string) C19Step {
 	}
 	fields := sortedKeys(rt.body("x"))
 	st.Field = pick(r, fields)
-	st.Mut = pick(r, []string{"none", "none", "nonjson", "wrongtype", "wrongtype", "delete", "null", "empty", "huge", "negative", "deep", "unknown", "wrongdim", "overk", "overdim", "overbatch"})
+	st.Mut = pick(r, []string{"none", "none", "nonjson", "wrongtype", "wrongtype", "delete", "null", "empty", "huge", "negative", "deep", "unknown", "unknownid", "unknownid", "wrongdim", "overk", "overdim", "overbatch"})
 	if st.Mut == "nonjson" {
 		st.Raw = pick(r, []string{"not json", "", "{", "[1,2", "{\"index_name\": }", "\x00\x01\x02", "nul", "{'index_name':'main'}", "<xml/>"})
 	}
